@@ -1,6 +1,7 @@
 import Wayfind.Proofs.Reachable
 import Wayfind.Proofs.FindOpt
 import Wayfind.Proofs.FindDelete
+import Wayfind.Proofs.FindInsertAny
 
 /-! the tree as a finite map, lifted to sequences of inserts and deletes -/
 
@@ -31,52 +32,106 @@ theorem Kids.SOKp_of_Shpk : ∀ (ks : Kids), Kids.Shpk ks → Kids.SOKp ks
     exact ⟨Node.SOK_of_Shp n h.1, Kids.SOKp_of_Shpk r h.2.2⟩
 end
 
-/-- lookup in an association list of inserted routes -/
-def lookupIns (xs : List (List Part × Info)) (Q : List Part) : Option Info :=
-  (xs.find? (fun x => x.1 == Q)).map (·.2)
+/-- the value found under `Q` after inserting the routes `xs` in order into a tree where `Q` had value `old`:
+a later insert under the same key overwrites, except under a catch-all key, which keeps what it has -/
+def insVal (Q : List Part) : List (List Part × Info) → Option Info → Option Info
+  | [], old => old
+  | x :: xs, old => insVal Q xs (if x.1 = Q then some (keepOld Q old x.2) else old)
+
+/-- lookup in the list of routes inserted by one call (the tree did not hold any of their keys before) -/
+def lookupIns (xs : List (List Part × Info)) (Q : List Part) : Option Info := insVal Q xs none
+
+theorem insVal_not_mem (Q : List Part) : ∀ (xs : List (List Part × Info)) (old : Option Info), Q ∉ xs.map (·.1) →
+    insVal Q xs old = old
+  | [], _, _ => rfl
+  | x :: xs, old, h => by
+    simp only [List.map_cons, List.mem_cons, not_or] at h
+    have : ¬ x.1 = Q := fun h' => h.1 h'.symm
+    simp only [insVal, this, ite_false]
+    exact insVal_not_mem Q xs old h.2
 
 theorem lookupIns_none_of_not_mem (xs : List (List Part × Info)) (Q : List Part) (h : Q ∉ xs.map (·.1)) :
-    lookupIns xs Q = none := by
-  unfold lookupIns
-  rw [List.find?_eq_none.2]
-  · rfl
-  · intro x hx hq
-    exact h (List.mem_map.2 ⟨x, hx, by simpa using hq⟩)
+    lookupIns xs Q = none := insVal_not_mem Q xs none h
 
-/-- find after inserting a sequence of fresh, pairwise different, well-formed routes -/
-theorem find_foldl_insert : ∀ (xs : List (List Part × Info)) (n : Node), Node.Shp n →
-    (∀ x ∈ xs, wfParts x.1 = true) → (xs.map (·.1)).Nodup → (∀ x ∈ xs, Node.find n x.1 = none) →
+theorem insVal_some_mem (Q : List Part) : ∀ (xs : List (List Part × Info)) (old : Option Info) (j : Info),
+    insVal Q xs old = some j → old = some j ∨ ∃ x ∈ xs, x.1 = Q ∧ j = x.2
+  | [], old, j, h => Or.inl h
+  | x :: xs, old, j, h => by
+    simp only [insVal] at h
+    rcases insVal_some_mem Q xs _ j h with h1 | ⟨y, hy, hyq, hj⟩
+    · by_cases hx : x.1 = Q
+      · simp only [hx, ite_true, Option.some.injEq] at h1
+        unfold keepOld at h1
+        split at h1
+        · cases old with
+          | none => exact Or.inr ⟨x, by simp, hx, by simpa using h1.symm⟩
+          | some o => exact Or.inl (by simpa using h1)
+        · exact Or.inr ⟨x, by simp, hx, h1.symm⟩
+      · simp only [hx, ite_false] at h1; exact Or.inl h1
+    · exact Or.inr ⟨y, by simp [hy], hyq, hj⟩
+
+theorem insVal_isSome_of_some (Q : List Part) : ∀ (xs : List (List Part × Info)) (o : Info), (insVal Q xs (some o)).isSome = true
+  | [], _ => rfl
+  | x :: xs, o => by
+    simp only [insVal]
+    split
+    · exact insVal_isSome_of_some Q xs _
+    · exact insVal_isSome_of_some Q xs o
+
+theorem insVal_isSome_of_mem (Q : List Part) : ∀ (xs : List (List Part × Info)) (old : Option Info), Q ∈ xs.map (·.1) →
+    (insVal Q xs old).isSome = true
+  | [], _, h => by cases h
+  | x :: xs, old, h => by
+    simp only [insVal]
+    by_cases hx : x.1 = Q
+    · simp only [hx, ite_true]; exact insVal_isSome_of_some Q xs _
+    · simp only [hx, ite_false]
+      simp only [List.map_cons, List.mem_cons] at h
+      rcases h with h | h
+      · exact absurd h.symm hx
+      · exact insVal_isSome_of_mem Q xs old h
+
+/-- find after inserting a sequence of well-formed routes (keys may repeat and may be present already) -/
+theorem find_foldl_insert_any : ∀ (xs : List (List Part × Info)) (n : Node), Node.Shp n →
+    (∀ x ∈ xs, wfParts x.1 = true) →
     Node.Shp (xs.foldl (fun t x => Node.insert t x.1 x.2) n) ∧
     ∀ Q, wfParts Q = true →
-      Node.find (xs.foldl (fun t x => Node.insert t x.1 x.2) n) Q = (match lookupIns xs Q with | some i => some i | none => Node.find n Q)
-  | [], n, hS, _, _, _ => ⟨hS, fun Q _ => rfl⟩
-  | x :: xs, n, hS, hwf, hnd, hfresh => by
+      Node.find (xs.foldl (fun t x => Node.insert t x.1 x.2) n) Q = insVal Q xs (Node.find n Q)
+  | [], n, hS, _ => ⟨hS, fun Q _ => rfl⟩
+  | x :: xs, n, hS, hwf => by
     simp only [List.foldl_cons]
     have hx := hwf x (by simp)
     have hS1 := (Node.insert_Shp n x.1 x.2 hS hx).1
-    have hfi : ∀ Q, wfParts Q = true → Node.find (Node.insert n x.1 x.2) Q = if Q = x.1 then some x.2 else Node.find n Q :=
-      fun Q hQ => Node.find_insert n x.1 Q x.2 (Node.SOK_of_Shp n hS) (wfParts_altOK _ hx) (wfParts_altOK _ hQ) (hfresh x (by simp))
-    simp only [List.map_cons, List.nodup_cons] at hnd
-    have hfresh' : ∀ y ∈ xs, Node.find (Node.insert n x.1 x.2) y.1 = none := by
-      intro y hy
-      rw [hfi y.1 (hwf y (by simp [hy]))]
-      have : y.1 ≠ x.1 := by
-        intro h; exact hnd.1 (h ▸ List.mem_map.2 ⟨y, hy, rfl⟩)
-      rw [if_neg this]; exact hfresh y (by simp [hy])
-    obtain ⟨hS2, hfind⟩ := find_foldl_insert xs _ hS1 (fun y hy => hwf y (by simp [hy])) hnd.2 hfresh'
+    obtain ⟨hS2, hfind⟩ := find_foldl_insert_any xs _ hS1 (fun y hy => hwf y (by simp [hy]))
     refine ⟨hS2, ?_⟩
     intro Q hQ
-    rw [hfind Q hQ, hfi Q hQ]
+    rw [hfind Q hQ, Node.find_insert' n x.1 Q x.2 (Node.SOK_of_Shp n hS) (wfParts_altOK _ hx) (wfParts_altOK _ hQ)]
+    simp only [insVal]
     by_cases hq : x.1 = Q
-    · subst hq
-      rw [lookupIns_none_of_not_mem xs x.1 hnd.1]
-      simp [lookupIns]
+    · subst hq; simp
     · have hq' : ¬ Q = x.1 := fun h => hq h.symm
-      have : lookupIns (x :: xs) Q = lookupIns xs Q := by
-        unfold lookupIns
-        rw [List.find?_cons_of_neg]
-        simpa using hq
-      rw [this, if_neg hq']
+      simp [hq, hq']
+
+/-- find after inserting a sequence of fresh well-formed routes (keys may repeat) -/
+theorem find_foldl_insert (xs : List (List Part × Info)) (n : Node) (hS : Node.Shp n)
+    (hwf : ∀ x ∈ xs, wfParts x.1 = true) (hfresh : ∀ x ∈ xs, Node.find n x.1 = none) :
+    Node.Shp (xs.foldl (fun t x => Node.insert t x.1 x.2) n) ∧
+    ∀ Q, wfParts Q = true →
+      Node.find (xs.foldl (fun t x => Node.insert t x.1 x.2) n) Q = (match lookupIns xs Q with | some i => some i | none => Node.find n Q) := by
+  obtain ⟨hS', hfind⟩ := find_foldl_insert_any xs n hS hwf
+  refine ⟨hS', ?_⟩
+  intro Q hQ
+  rw [hfind Q hQ]
+  by_cases hm : Q ∈ xs.map (·.1)
+  · obtain ⟨x, hx, hxq⟩ := List.mem_map.1 hm
+    have : Node.find n Q = none := by rw [← hxq]; exact hfresh x hx
+    rw [this]
+    unfold lookupIns
+    have := insVal_isSome_of_mem Q xs none hm
+    cases h : insVal Q xs none with
+    | none => rw [h] at this
+    | some i => rfl
+  · rw [insVal_not_mem Q xs _ hm, lookupIns_none_of_not_mem xs Q hm]
 
 /-- find after deleting a sequence of well-formed routes -/
 theorem find_foldl_delete : ∀ (Ps : List (List Part)) (n : Node), Node.Shp n → (∀ P ∈ Ps, wfParts P = true) →
